@@ -199,7 +199,7 @@ fn h_engine(ctx: &Ctx) {
     let seeds: Vec<Vec<String>> = if thorough {
         vec![s(&["b", "Ab", "abab"]), s(&["a1", "A1", "b"]), s(&["xx", "x", "Xx\u{1f4a9}\u{1f4a9}"]), s(&["", "a"]), s(&["ba", "bb", "B"]), s(&["a", "ab", "abb"])]
     } else {
-        vec![s(&["b", "Ab", "abab\u{1f4a9}"]), s(&["a1", "A1", "b"]), s(&["a", "ab", "abb"])]
+        vec![s(&["b", "Ab", "abab\u{1f4a9}"]), s(&["a1", "A1", "b"]), s(&["a", "ab", "abb"]), s(&["aa", "Bb", "ab"])]
     };
     let ops: Vec<Op> = if thorough {
         let mut v: Vec<Op> = [D, S, W, NW, R, I, G, X, NA, NE].iter().map(|b| Op::Flag(*b)).collect();
